@@ -332,25 +332,30 @@ def _corner_cases():
   b = lambda s, t, p, v: {'scope': s, 'target': t, 'param': p, 'value': v}
   x1, cx = b('', 'fa', 'x', ['i', 1]), ['s', 'caller']
   # caller always supplies / supplies once / never; positional, keyword, REQUIRED
-  for hist in ([call('fa', (), [cx])], [call('fa', (), [cx]), call('fa')], [call('fa'), call('fa', (), [cx])],
-               [call('fa', (), [], x=cx, y=cx, z=cx)], [call('fa', (), [['REQ']], y=['i', 9])],
+  for hist in ([call('fa', (), [cx])], [call('fa', (), [cx]), call('fa')],
+               [call('fa'), call('fa', (), [cx])], [call('fa', (), [], x=cx, y=cx, z=cx)],
+               [call('fa', (), [['REQ']], y=['i', 9])],
                [call('fa', ('a',)), call('fa', ('a', 'b'), [cx]), call('fb', ('b',), [], k=cx)]):
     yield {'via': 'bind', 'bindings': [x1, b('a', 'fa', 'y', ['s', 'in a'])], 'history': hist}
   # the value used most recently; a later caller-supplied call does not erase the record
   yield {'via': 'bind', 'bindings': [x1], 'history': [
       call('fa'), dict(b('', 'fa', 'x', ['i', 2]), op='bind'), call('fa'), call('fa', (), [cx])]}
-  # allowlist / denylist / non-literal defaults / keyword-only / REQUIRED default
-  yield {'via': 'parse', 'bindings': [b('', 'fr', 'req', ['i', 3]), b('', 'fw', 'a', ['i', 4])],
-         'history': [call(t) for t in ('fw', 'fd', 'fnl', 'fb', 'fr')] + [call('fw', ('a',), [], c=cx)]}
+  # allowlist / denylist / non-literal defaults / keyword-only / REQUIRED default / **kwargs
+  yield {'via': 'parse', 'bindings': [b('', 'fr', 'req', ['i', 3]), b('', 'fw', 'a', ['i', 4]),
+                                      b('a', 'fk', 'more', ['s', 'kw'])],
+         'history': [call(t) for t in ('fw', 'fd', 'fnl', 'fb', 'fr', 'fk')] + [
+             call('fw', ('a',), [], c=cx), call('fk', ('a', 'b'), [], extra=cx)]}
   # evaluated, scoped and plain references, macros (scoped, nested), constants, class and method
   yield {'via': 'parse', 'history': [call('fa'), call('fa', ('b',)), call('meth', ('a',))], 'bindings': [
-      b('', 'fa', 'x', ['r', '', 'fb', True]), b('', 'fa', 'y', ['l', [['r', 's', 'Kc', True], ['r', '', 'fw', False]]]),
-      b('', 'fb', 'p', ['m', 'mm']), b('mm', '%', 'value', ['r', '', 'fd', True]), b('', 'fb', 'q', ['c', 'KONST']),
-      b('b', 'fa', 'z', ['m', 'a/mm']), b('a/mm', '%', 'value', ['i', 5]), b('a', 'meth', 'arg', ['m', 'MM']),
+      b('', 'fa', 'x', ['r', '', 'fb', True]),
+      b('', 'fa', 'y', ['l', [['r', 's', 'Kc', True], ['r', '', 'fw', False]]]),
+      b('', 'fb', 'p', ['m', 'mm']), b('mm', '%', 'value', ['r', '', 'fd', True]),
+      b('', 'fb', 'q', ['c', 'KONST']), b('b', 'fa', 'z', ['m', 'a/mm']),
+      b('a/mm', '%', 'value', ['i', 5]), b('a', 'meth', 'arg', ['m', 'MM']),
       b('MM', '%', 'value', ['o', 'object'])]}
   # a macro that is used but not defined: the call fails, the text must still be produced
-  yield {'via': 'bind', 'bindings': [b('', 'fa', 'x', ['m', 'mm'])], 'history': [dict(call('fa'), fails=True),
-                                                                              call('fb')]}
+  yield {'via': 'bind', 'bindings': [b('', 'fa', 'x', ['m', 'mm'])],
+         'history': [dict(call('fa'), fails=True), call('fb')]}
 
 
 def cases(tier, rng):
@@ -442,7 +447,7 @@ def check(case):
   def fail(clause, expected, observed, sig):
     sig = '%s: %s [%s]' % (clause, sig, feat)
     if sig not in [f['signature'] for f in fails]:
-      fails.append({'clause': clause, 'expected': expected, 'observed': str(observed)[:300],
+      fails.append({'clause': clause, 'expected': str(expected)[:300], 'observed': str(observed)[:300],
                     'signature': sig})
 
   def attempt(clause, fn, *args):
